@@ -25,7 +25,11 @@ from vlib.ctx import Acc, HarnessError, VERIF, stopped
 
 LEVEL = "exploration"
 MONS = ["C05"]
-LOGDETS = (-3000.0, -800.0, -700.0, 0.0, 700.0, 800.0, 3000.0)
+# -745 / +709.8 are where exp/log leave the double range; the band just inside (-744..-708: the
+# determinant is a subnormal double) is enumerated densely, because a log(det) there is computed
+# from a few significant bits only
+LOGDETS = (-3000.0, -800.0, -750.0, -746.0, -744.0, -742.0, -740.0, -737.0, -734.0, -730.0, -725.0, -720.0, -715.0,
+           -710.0, -700.0, -300.0, 0.0, 300.0, 700.0, 705.0, 709.0, 709.7, 710.0, 715.0, 800.0, 3000.0)
 NWS_QUICK = (1, 2, 3, 5, 10, 50, 100)
 NWS_THOROUGH = (1, 2, 3, 5, 10, 50, 100, 200)
 
@@ -177,7 +181,7 @@ def run(ctx):
     ctx.cov["evaluations_jit"] = ctx.cov["evaluations"] - n_nojit
     # (b) end to end
     L = 20
-    menu = [("k2a", [L], 1), ("k2m1", [L], 0), ("k2mat", [L], 0)]
+    menu = [("k2a", [L], 1), ("k2m1", [L], 0), ("k2mat", [L], 0), ("k2eps2", [L], 0)]
     if ctx.thorough:
         menu += [("k2b", [L], 1), ("k3a", [L], 1), ("k2w3", [L], 1), ("k2eps", [L], 0), ("k2vec", [L], 0)]
     ps = ml.e2_plans(ctx, menu, MONS, conform=False)
@@ -188,8 +192,8 @@ def run(ctx):
     ctx.cov["exhaustive"] = True
     ctx.cov["rule"] = (
         "(a) NW in " + str(list(NWS_THOROUGH if ctx.thorough else NWS_QUICK)) + ", Theta = s*B for B in {I, "
-        "tridiagonal Toeplitz(2,-1), dense SPD cond 1e4} with s such that log det Theta in {-3000,-800,-700,0,700,"
-        "800,3000} (|log det| <= 600 NW), K in {1,2,3}; NW<=3: every mean tuple x every point tuple over "
+        "tridiagonal Toeplitz(2,-1), dense SPD cond 1e4} with s such that log det Theta in " + str(list(LOGDETS)) + " (|log det| <= 600 NW; dense "
+        "in the subnormal-determinant band), K in {1,2,3}; NW<=3: every mean tuple x every point tuple over "
         "{-1,0,2}^NW, beyond: 3 fixed patterns; table function and per-point function, interpreted and JIT; "
         "oracle = Cholesky log-density, tolerance 1e-10 x (|logdet| + quad + NW log 2pi), value must be finite. "
         "(b) every round's table at the labelling step and the result's per-point values (as a multiset) on "
